@@ -103,7 +103,7 @@ theorem matmul_stack (a b : A) (s n m p : Nat) (ha : a.WF) (hb : b.WF)
     exact matmulNd_stack a b s n m p ha hb hs hn hm hp hsa hsb
   · unfold Arr.WF ms33
     simp only
-    rw [length_flatMap_uniform _ _ (n * p) (by intro t _; simp [mm22, length_flatMap_range])]
+    rw [length_flatMap_uniform _ _ (n * p) (by intro t _; simp [mm22])]
     simp
   · intro t i j ht hi hj
     exact ms33_get a b s n m p t i j ht hi hj hsa hsb
@@ -332,7 +332,7 @@ theorem dot_refuses_22 (a b : A) (n m m' p : Nat) (hsa : a.shape = [n, m]) (hsb 
   unfold dot
   rw [if_neg (by simp [h1, h2])]
   simp only [Arr.ndim, hsa, hsb, List.length_cons, List.length_nil]
-  simp only [Nat.zero_add, Nat.reduceAdd, Nat.reduceEqDiff, and_self, if_false, if_true, and_false]
+  simp only [Nat.zero_add, Nat.reduceAdd, Nat.reduceEqDiff, and_self, if_false, if_true]
   rw [matmul_refuses_22 a b n m m' p hsa hsb h]
   unfold shapesAlign
   by_cases hnp : n = p <;> simp [hnp]
@@ -346,7 +346,7 @@ theorem dot_refuses_21 (a b : A) (n k k' : Nat) (ha : a.WF) (hb : b.WF) (hn : 0 
   rw [if_neg (by simp [h1, h2])]
   simp only [Arr.ndim, hsa, hsb, List.length_cons, List.length_nil]
   simp only [Nat.zero_add, Nat.reduceAdd, Nat.reduceEqDiff, and_self, if_false, and_false, or_true, if_true,
-    Nat.le_refl, Nat.one_le_ofNat, and_true, false_and]
+    Nat.le_refl, Nat.one_le_ofNat, and_true]
   unfold dot1d
   simp only [Arr.ndim, hsa, hsb, List.length_cons, List.length_nil, Nat.zero_add, Nat.reduceAdd, Nat.one_lt_ofNat,
     if_true, Nat.lt_irrefl, if_false, getRows_eq a n k hsa, Res.bind_ok, Res.pure_eq, dotIterate,
@@ -367,7 +367,7 @@ theorem dot_refuses_12 (a b : A) (k k' p : Nat) (ha : a.WF) (hp : 0 < p)
   rw [if_neg (by simp [h1, h2])]
   simp only [Arr.ndim, hsa, hsb, List.length_cons, List.length_nil]
   simp only [Nat.zero_add, Nat.reduceAdd, Nat.reduceEqDiff, and_self, if_false, and_false, true_or, if_true,
-    Nat.le_refl, Nat.one_le_ofNat, and_true, false_and]
+    Nat.le_refl, Nat.one_le_ofNat, and_true]
   unfold dot1d
   simp only [Arr.ndim, hsa, hsb, List.length_cons, List.length_nil, Nat.zero_add, Nat.reduceAdd, Nat.one_lt_ofNat,
     if_true, Nat.lt_irrefl, if_false, getColumns_eq b k' p hsb, Res.bind_ok, Res.pure_eq, dotIterate,
@@ -414,7 +414,7 @@ theorem inner_spec (a b : A) (sa sb : List Nat) (k : Nat) (ha : a.WF) (hb : b.WF
       simp [Arr.ndim, hsa, hsb]
     rw [hal]; simp only [Res.bind_ok]
     exact innerNd_eq a b sa sb k ha hb hsa hsb hpa hpb
-  · simp [Arr.WF, inn, length_flatMap_range]
+  · simp [Arr.WF, inn]
   · intro ca cb hca hcb
     exact inn_get a b sa sb k ha hb hsa hsb ca cb hca hcb
 
@@ -508,5 +508,15 @@ example : inner ⟨[6, 5, 4, 3, 2, 1], [2, 3]⟩ ⟨[1, 2, 3], [3]⟩ = .ok ⟨[
 example : (⟨[1, 2, 3, 4, 5, 6], [2, 3]⟩ : A).WF ∧ inRange [2] [1] = true ∧ (0 < [2].prod) := by decide
 example : dot ⟨[1, 2, 3, 4], [2, 2]⟩ ⟨[5, 6, 7, 8], [2, 2]⟩ = some (.ok ⟨[19, 22, 43, 50], [2, 2]⟩) := by decide
 example : dot ⟨[2], [1]⟩ ⟨[1, 2, 3, 4], [2, 2]⟩ = some (.ok ⟨[2, 4, 6, 8], [2, 2]⟩) := by decide
+-- a stack whose matrices are not square and whose products are not square: [2,2,3] · [2,3,1]
+example : matmul ⟨[1, 2, 3, 4, 5, 6, 7, 8, 9, 10, 11, 12], [2, 2, 3]⟩ ⟨[1, 0, 1, 0, 1, 0], [2, 3, 1]⟩
+    = .ok ⟨[4, 10, 8, 11], [2, 2, 1]⟩ := by decide
+-- refusals: vector · matrix, matrix · vector, stacks, dot of a matrix and a vector, inner
+example : matmul ⟨[1, 2, 3], [3]⟩ ⟨[0, 1, 2, 3, 4, 5], [2, 3]⟩ = .err .ParameterError := by decide
+example : matmul ⟨[0, 1, 2, 3, 4, 5], [2, 3]⟩ ⟨[1, 2], [2]⟩ = .err .ParameterError := by decide
+example : matmul ⟨[1, 2, 3, 4, 5, 6, 7, 8], [2, 2, 2]⟩ ⟨[1, 2, 3, 4, 5, 6], [2, 3, 1]⟩ = .err .ParameterError := by decide
+example : dot ⟨[0, 1, 2, 3, 4, 5], [2, 3]⟩ ⟨[1, 2], [2]⟩ = some (.err .MustBeEqual) := by decide
+example : inner ⟨[0, 1, 2, 3, 4, 5], [2, 3]⟩ ⟨[1, 2, 3, 4], [2, 2]⟩ = .err .ParameterError := by decide
+example : (⟨[0, 1, 2, 3, 4, 5], [2, 3]⟩ : A).shape[(⟨[0, 1, 2, 3, 4, 5], [2, 3]⟩ : A).ndim - 2]? = some 2 := by decide
 
 end ArrModel.C14
